@@ -376,6 +376,76 @@ def check_gate(feature, version):
     return []
 
 
+HISTORY_VERSIONS = ["2.2.2", "2.2.3", "2.5.4", "2.5.5", "2.5.10", "2.6.0", "2.8.1"]
+
+
+def _feature_calls(port):
+    from plotink import ebb_motion, ebb_serial      # pylint: disable=import-outside-toplevel
+    return {"servo_timeout": lambda: ebb_motion.servo_timeout(port, 60000, 1),
+            "queryVoltage": lambda: ebb_motion.queryVoltage(port),
+            "query_nickname": lambda: ebb_serial.query_nickname(port),
+            "write_nickname": lambda: ebb_serial.write_nickname(port, "Axi"),
+            "reboot": lambda: ebb_serial.reboot(port)}
+
+
+def _sent_feature(port, feature, since):
+    gate = {g[0]: g for g in GATES}[feature]
+    return any(w.startswith(gate[2]) for w in port.write_attempts[since:])
+
+
+def _wanted(feature, version):
+    gate = {g[0]: g for g in GATES}[feature]
+    return tuple(map(int, version.split("."))) >= gate[1]
+
+
+def check_gate_history(kind, first, second, ver_a, ver_b=None):
+    """Gated features in a row.  kind 'same': both on one port / one board (ver_a).  Other
+    kinds: `first` on board A, the port is closed ('closeport', 'closeport_raising', 'close'),
+    a board B (ver_b) is opened under the same device name (re-plugged) and gets `second`."""
+    from plotink import ebb_serial          # pylint: disable=import-outside-toplevel
+    core.quiet_legacy_logger()
+    port = FakePort(LegacyBoard(version=ver_a), os_name="/dev/ttyACM0")
+    out = []
+    desc = f"{first} on a {ver_a} board"
+    try:
+        _feature_calls(port)[first]()
+        if _sent_feature(port, first, 0) != _wanted(first, ver_a):
+            out.append(f"{desc}: feature command {'sent' if not _wanted(first, ver_a) else 'not sent'}"
+                       f" ({port.write_attempts!r})")
+        if kind == "same":
+            target, ver = port, ver_a
+            desc += f", then {second} on the same port"
+        else:
+            if kind == "closeport_raising":
+                port.fail_next_close = True
+            if kind == "close":
+                port.close()
+            else:
+                ebb_serial.closePort(port)
+            target = FakePort(LegacyBoard(version=ver_b), os_name="/dev/ttyACM0")
+            ver = ver_b
+            desc += (f", port closed ({kind}), a {ver_b} board plugged in under the same device "
+                     f"name, then {second}")
+        since = len(target.write_attempts)
+        _feature_calls(target)[second]()
+    except Exception as exc:                # pylint: disable=broad-except
+        return [f"{desc}: raised {type(exc).__name__}: {exc}"]
+    if _sent_feature(target, second, since) != _wanted(second, ver):
+        out.append(f"{desc}: feature command {'sent' if not _wanted(second, ver) else 'not sent'} "
+                   f"({target.write_attempts[since:]!r}); the board reports {ver}")
+    return out
+
+
+def gate_histories():
+    feats = [g[0] for g in GATES if g[0] != "reboot"]
+    out = [("same", f_1, f_2, ver, None) for f_1 in feats for f_2 in feats
+           for ver in HISTORY_VERSIONS]
+    for kind in ("closeport", "closeport_raising", "close"):
+        out += [(kind, f_1, f_2, v_a, v_b) for f_1 in ("servo_timeout", "query_nickname")
+                for f_2 in feats for v_a in ("2.8.1", "2.2.2") for v_b in HISTORY_VERSIONS]
+    return out
+
+
 def run(ctx):
     bound = ctx.pick(2, 3)
     jobs = []
@@ -397,6 +467,11 @@ def run(ctx):
                            {"kind": "custom_min", "minimum": minimum, "version": version,
                             "how": how})
         part.count("custom_minimum_cases")
+        part.count("gate_cases")
+    for item in gate_histories():
+        for msg in check_gate_history(*item):
+            part.violation(f"gate_history:{item}", msg, {"kind": "gate_history", "item": list(item)})
+        part.count("gate_histories")
         part.count("gate_cases")
     for feature, _gate, _cmd in GATES:
         for version in GATE_VERSIONS:
@@ -423,6 +498,9 @@ def run(ctx):
                 "probe, late/silent/error replies, raising reads and writes), and the gate with "
                 "MIN_VERSION_STRING raised or lowered (5 minima x 11 boards x subclass / "
                 "instance / class attribute); (c) 5 legacy gates "
+                "(also as histories: every ordered pair of gated features on one port x 7 board "
+                "versions, and a second board re-plugged under the same device name after "
+                "closePort(), closePort() with close() raising, or port.close()) "
                 "x 12 board versions; non-trivial = handshake executions with a deviation and "
                 "version pairs whose string order differs from numeric order",
         "samples": core.rotate(part.samples, ctx.seed, 4),
@@ -431,6 +509,7 @@ def run(ctx):
         "side_by_side_histories": cnt.get("pair_histories", 0),
         "order_pairs_where_string_order_differs": cnt.get("nontrivial_order", 0),
         "gate_cases": cnt.get("gate_cases", 0),
+        "gate_histories": cnt.get("gate_histories", 0),
         "custom_minimum_cases": cnt.get("custom_minimum_cases", 0),
         "accepted_supported_board_executions": cnt.get("accepted_supported_board", 0),
         "distinct_outcomes": part.size("outcomes"),
@@ -471,6 +550,8 @@ def replay(case):
         return [m for _t, m in check_pair(case["a"], case["b"], case["thresholds"])]
     if case["kind"] == "custom_min":
         return check_custom_minimum(case["minimum"], case["version"], case["how"])
+    if case["kind"] == "gate_history":
+        return check_gate_history(*case["item"])
     if case["kind"] == "gate":
         return check_gate(case["feature"], case["version"])
     script = [tuple(s) if isinstance(s, list) else s for s in case["script"]]
